@@ -42,6 +42,7 @@ type runSpec struct {
 	KeepSteps bool
 	TracePer  bool
 	StopAt    *Violation // replay/minimise: stop as soon as this oracle fired
+	KnownKeys []string   // class keys of listed known findings: a run does not stop at them
 }
 
 func workdirRoot() string {
@@ -207,7 +208,22 @@ func (c *Cluster) stopNow(spec *runSpec) bool {
 		return false
 	}
 	// in generation mode stop at the first violation of the checked property
-	return c.failed(spec.Property) != nil || c.failed("PANIC") != nil
+	// (listed known findings do not stop a run: other violations must still surface)
+	for _, v := range c.violations {
+		if v.Property != spec.Property && v.Property != "PANIC" {
+			continue
+		}
+		known := false
+		for _, k := range spec.KnownKeys {
+			if k == v.Key {
+				known = true
+			}
+		}
+		if !known {
+			return true
+		}
+	}
+	return false
 }
 
 // afterStep runs the invariants.
